@@ -6,11 +6,30 @@ as a native executable.
 import Driver.CavIO
 import Macaroon.Auth.Discharge
 import Macaroon.Caveat.Spec
+import Macaroon.Conc.RWMutex
+import Macaroon.Generated.BundleLocks
 
 namespace Driver
 open Macaroon
 
 def rolesStr (rs : List UInt32) : String := "roles:" ++ ",".intercalate (rs.map fun r => toString r.toNat)
+
+/-- all control-flow paths of an entry point in the regenerated lock table -/
+def pathsOf (n : String) : List Conc.Entry :=
+  Generated.bundleLocks.filter fun e => e.name == n || e.name.startsWith (n ++ "#")
+
+/-- what the model predicts for goroutines hammering entry points `a` and `b` concurrently:
+`ok` when all their paths are flat (then `bundle_deadlock_free`/`bundle_race_free` apply);
+otherwise a witness schedule of the model is searched: `may-hang` / `may-race` -/
+def concVerdict (a b : String) : String :=
+  let pa := pathsOf a
+  let pb := pathsOf b
+  if pa.isEmpty || pb.isEmpty then "unknown-entry"
+  else if (pa ++ pb).all (fun e => Conc.Flat e.trace) then "ok"
+  else
+    let progs := fun (x y : Conc.Entry) => [x.trace, x.trace, y.trace, y.trace]
+    let hang := pa.any fun x => pb.any fun y => (Conc.findDeadlock (progs x y) 14).isSome
+    if hang then "may-hang" else "may-race"
 
 def evalOp : Sx → Option String
   | .list [.atom "prohibits", c, a] => do
@@ -24,6 +43,9 @@ def evalOp : Sx → Option String
     | some true => some "ok"
     | some false => some "errs:spec"
     | none => some (errsStr (prohibits c a))
+  | .list [.atom "conc", .atom a, .atom b] => some (concVerdict a b)
+  | .list [.atom "locks.nonflat"] =>
+    some ("nonflat:" ++ ",".intercalate ((Generated.bundleLocks.filter fun e => !Conc.Flat e.trace).map (·.name)))
   | .list [.atom "validate", .list cs, .list as] => do
     let cs ← cavs? cs
     let as ← as.mapM access?
